@@ -19,6 +19,10 @@ MANIFEST = dict(
          "translator/gen_tags.py; allocator / lifetime behaviour is observed by the sanitizers, not proved.",
     technique="Lean 4 proof over executable byte-level models + model/impl correspondence + spec oracle on impl output",
     design="DESIGN.md §6 C04")
+MANIFEST["note"] += (" Constants and limits of the C++ source that the model restates (translator/gen_limits.py -> Gen/Limits.lean: "
+                     "compiled probe + preprocessed function bodies at named anchors) are tied to the model's numerals by the "
+                     "theorems of lean/TinsModel/Props/Limits/Wire.lean (audit: Audit/LimitsWire.lean); tools/LIMITS-INVENTORY.md lists "
+                     "what is tied and what is not.")
 
 
 def run(chk):
